@@ -43,6 +43,8 @@ def install(w):
     H['@free'] = free('free', {'malloc'}); H['@_ZdlPv'] = free('delete', {'new'}); H['@_ZdaPv'] = free('delete[]', {'new[]'})
     H['@_ZdlPvm'] = free('delete', {'new'}); H['@_ZdaPvm'] = free('delete[]', {'new[]'})
     def memcpy(it, a):
+        if w.race and not is_c(a[2]):       # race analysis: symbolic extent, accesses are only logged
+            w.acc.append(('W', a[0].obj, a[0].off, a[2])); w.acc.append(('R', a[1].obj, a[1].off, a[2])); return a[0]
         d, s_, n = a[0], a[1], it.concretize(a[2], 64, 'memcpy length')
         if n == 0: return d
         for q, k in ((d, 'write'), (s_, 'read')):
@@ -64,6 +66,8 @@ def install(w):
                 b = w.load_bytes(Ptr(s_.obj, s_.off + k), 1); w.store_bytes(Ptr(d.obj, d.off + k), 1, b)
         return d
     def memset(it, a):
+        if w.race and not is_c(a[2]):
+            w.acc.append(('W', a[0].obj, a[0].off, a[2])); return a[0]
         d, v, n = a[0], it.concretize(a[1], 8, 'memset value'), it.concretize(a[2], 64, 'memset length')
         if n == 0: return d
         if not isinstance(d, Ptr) or d.obj is None: raise Violation('null-deref', 'memset through null pointer')
